@@ -175,7 +175,8 @@ def core_projection(ns):
             if getattr(f, 'type', None) is not None:
                 e.setdefault('fields', {})[f.name] = _type_key(f.type)
         for pr in getattr(node, 'properties', None) or []:
-            e.setdefault('properties', {})[pr.name] = _type_key(pr.type)
+            e.setdefault('properties', {})[pr.name] = [_type_key(pr.type), bool(pr.readable), bool(pr.writable), bool(pr.construct),
+                                                       bool(pr.construct_only), pr.transfer, getattr(pr, 'default_value', None)]
         pt = getattr(node, 'parent_type', None)
         if pt is not None and cls == 'Class':       # interfaces carry an implied parent that is not written
             e['parent'] = _type_key(pt)
